@@ -6,6 +6,7 @@ mod e_c05;
 mod e_c13;
 mod e_c15;
 mod e_c16;
+mod e_c17;
 mod e_c18;
 mod exec;
 mod scen;
@@ -20,6 +21,7 @@ fn dispatch(w: &[&str]) -> String {
         Some("dgram") => e_c18::handle(w),
         Some("set") => e_c13::handle(w),
         Some("cell") => e_c05::handle(w),
+        Some("quinn") => e_c17::handle(w),
         Some("pint") | Some("huff") | Some("pstr") => e_c15::handle(w),
         Some("frame") | Some("fs") => e_c02::handle(w),
         // connection-level engines share one scenario interpreter; the engine name selects the
